@@ -724,6 +724,8 @@ def nnf(test, neg=False, rename=None):
         if neg:
             pol = not pol
         name = {ast.In: "in", ast.Is: "is", ast.Eq: "==", ast.Lt: "<"}[op]
+        if name == "in" and isinstance(r, ast.Call) and isinstance(r.func, ast.Attribute) and r.func.attr == "keys" and not r.args and not r.keywords:
+            r = r.func.value   # membership in a mapping's keys == membership in the mapping
         if name in ("==", "<"):
             try:
                 from .norm import rat as _rat
@@ -749,19 +751,90 @@ def _rn(s, rename):
     return s
 
 
+def _atoms(t, out):
+    if t[0] == "lit":
+        out.add(t[2])
+    else:
+        for k in t[1]:
+            _atoms(k, out)
+    return out
+
+
+def _ev(t, env):
+    if t[0] == "lit":
+        return env[t[2]] == t[1]
+    if t[0] == "and":
+        return all(_ev(k, env) for k in t[1])
+    return any(_ev(k, env) for k in t[1])
+
+
 def nnf_implies(spec, guard):
-    """spec => guard (whenever spec holds the guard fires), for NNF terms."""
+    """spec => guard (whenever spec holds the guard fires), for NNF terms: decided by the truth table over the atoms of both
+    (atoms are treated as independent propositions, which can only make the implication harder to establish)."""
+    if spec == guard:
+        return True
+    atoms = sorted(_atoms(spec, set()) | _atoms(guard, set()))
+    if len(atoms) > 14:
+        return _nnf_implies_structural(spec, guard)
+    for bits in range(1 << len(atoms)):
+        env = {a: bool(bits >> i & 1) for i, a in enumerate(atoms)}
+        if _ev(spec, env) and not _ev(guard, env):
+            return False
+    return True
+
+
+def nnf_equiv(a, b):
+    return nnf_implies(a, b) and nnf_implies(b, a)
+
+
+def _nnf_implies_structural(spec, guard):
     if spec == guard:
         return True
     if guard[0] == "or":
         if spec[0] == "or":
-            return all(any(nnf_implies(s, g) for g in guard[1]) for s in spec[1])
-        return any(nnf_implies(spec, g) for g in guard[1])
+            return all(any(_nnf_implies_structural(s, g) for g in guard[1]) for s in spec[1])
+        return any(_nnf_implies_structural(spec, g) for g in guard[1])
     if guard[0] == "and":
-        return all(nnf_implies(spec, g) for g in guard[1])
+        return all(_nnf_implies_structural(spec, g) for g in guard[1])
     if spec[0] == "and":
-        return any(nnf_implies(s, guard) for s in spec[1])
+        return any(_nnf_implies_structural(s, guard) for s in spec[1])
     return False
+
+
+def membership(elt, E, neg=False):
+    """NNF of `elt in E` with the set algebra of E unfolded: set(X) / list(X) / X.keys() -> `elt in X`; A | B, A.union(B) -> or;
+    A & B -> and; (A if c else B) -> c and elt in A or not c and elt in B."""
+    def mk(tag, kids):
+        flat = set()
+        for k in kids:
+            if k[0] == tag:
+                flat |= set(k[1])
+            else:
+                flat.add(k)
+        return next(iter(flat)) if len(flat) == 1 else (tag, frozenset(flat))
+    if isinstance(E, ast.Call):
+        cn = call_name(E)
+        if cn in ("set", "list", "tuple", "frozenset", "sorted") and len(E.args) == 1 and not E.keywords:
+            return membership(elt, E.args[0], neg)
+        if isinstance(E.func, ast.Attribute) and E.func.attr == "keys" and not E.args:
+            return membership(elt, E.func.value, neg)
+        if isinstance(E.func, ast.Attribute) and E.func.attr == "union" and E.args:
+            return mk("and" if neg else "or", [membership(elt, x, neg) for x in [E.func.value] + list(E.args)])
+    if isinstance(E, ast.BinOp) and isinstance(E.op, (ast.BitOr, ast.BitAnd)):
+        is_or = isinstance(E.op, ast.BitOr)
+        if neg:
+            is_or = not is_or
+        return mk("or" if is_or else "and", [membership(elt, E.left, neg), membership(elt, E.right, neg)])
+    if isinstance(E, ast.IfExp):
+        a = mk("and", [nnf(E.test), membership(elt, E.body)])
+        b = mk("and", [nnf(E.test, True), membership(elt, E.orelse)])
+        if not neg:
+            return mk("or", [a, b])
+        a = mk("or", [nnf(E.test, True), membership(elt, E.body, True)])
+        b = mk("or", [nnf(E.test), membership(elt, E.orelse, True)])
+        return mk("and", [a, b])
+    from .norm import canon as _c
+    return ("lit", not neg, "%s in %s" % (_c(elt), _c(E)))
 
 
 def nnf_of_src(src, rename=None):
@@ -815,6 +888,36 @@ def unpack_source(name, stmt):
     return (ds.value, pos[0]) if len(pos) == 1 else None
 
 
+def elementwise(node):
+    """clone of ``node`` (a node of the analysed tree) in which every name bound by an enclosing comprehension / for loop that iterates
+    a sequence S (directly, or as a member of zip / enumerate) is replaced by ``S[$k]`` - "the current element of S"."""
+    binds = {}
+
+    def rec(tgt, it):
+        if isinstance(tgt, ast.Name):
+            if not (isinstance(it, ast.Call) and call_name(it) in ("range", "zip", "enumerate")):
+                binds.setdefault(tgt.id, ast.Subscript(value=clone(it), slice=ast.Name(id="$k", ctx=ast.Load()), ctx=ast.Load()))
+        elif isinstance(tgt, (ast.Tuple, ast.List)) and isinstance(it, ast.Call):
+            cn = call_name(it)
+            if cn == "enumerate" and len(tgt.elts) == 2 and it.args:
+                rec(tgt.elts[1], it.args[0])
+            elif cn == "zip" and len(tgt.elts) == len(it.args):
+                for t, a in zip(tgt.elts, it.args):
+                    rec(t, a)
+    cur = node
+    while cur is not None and not isinstance(cur, FUNC_TYPES):
+        p = parent(cur)
+        if isinstance(p, (ast.ListComp, ast.SetComp, ast.GeneratorExp, ast.DictComp)):
+            for g in p.generators:
+                rec(g.target, g.iter)
+        elif isinstance(p, (ast.For, ast.AsyncFor)) and cur in p.body:
+            rec(p.target, p.iter)
+        cur = p
+    if not binds:
+        return node
+    return _Subst(binds, False).visit(clone(node))
+
+
 def rename_bound(e):
     """clone with the variables bound by comprehensions renamed canonically (so that [f(x) for x in L] == [f(y) for y in L])"""
     e = clone(e)
@@ -865,7 +968,7 @@ def inline_temporaries(expr, stmt, fn, depth=4, only=None, exclude=()):
 
         class T(ast.NodeTransformer):
             def visit_Name(self, n):
-                if isinstance(n.ctx, ast.Load) and n.id not in params and n.id not in exclude and (only is None or n.id in only):
+                if isinstance(n.ctx, ast.Load) and n.id not in params and n.id not in exclude and n.id not in self.bound and (only is None or n.id in only):
                     ds = raw_reaching_def_stmt(n.id, at)
                     if ds is not None:
                         if isinstance(ds.value, (ast.List, ast.Dict, ast.Set)) and not getattr(ds.value, "elts", getattr(ds.value, "keys", None)):
@@ -876,7 +979,22 @@ def inline_temporaries(expr, stmt, fn, depth=4, only=None, exclude=()):
             def visit_Lambda(self, n):
                 return n
 
-        return T().visit(clone(e))
+            def _comp(self, n):
+                # names bound by the comprehension are its own: not temporaries of the function
+                bound = set()
+                for g in n.generators:
+                    bound |= {x.id for x in ast.walk(g.target) if isinstance(x, ast.Name)}
+                saved = self.bound
+                self.bound = saved | bound
+                self.generic_visit(n)
+                self.bound = saved
+                return n
+
+            visit_ListComp = visit_SetComp = visit_DictComp = visit_GeneratorExp = _comp
+
+        t = T()
+        t.bound = frozenset()
+        return t.visit(clone(e))
 
     return rec(expr, stmt, depth)
 
@@ -952,7 +1070,9 @@ def find_raising_guard(fn, spec, rename=None, want_loop_iter=None):
                 # firing condition = own test AND the tests of the enclosing branches.  Earlier sibling guards that leave the
                 # function (raise, or the early return of a separate input form) are not part of it: if they fired, this
                 # input was already rejected / handled by its own path.
-                pcs = [nnf(inline_temporaries(t, enclosing_stmt(t) or s, fn) if inl else t, not p_) for t, p_ in guards_of(s)]
+                # (the `else` of a branch that always leaves - `if bad1: raise ... elif bad2: raise` - is such a sibling in disguise)
+                pcs = [nnf(inline_temporaries(t, enclosing_stmt(t) or s, fn) if inl else t, not p_) for t, p_ in guards_of(s)
+                       if not (not p_ and isinstance(parent(t), ast.If) and parent(t).test is t and terminates(parent(t).body))]
                 firing = conj([own] + pcs)
                 if rename:
                     firing = _rename_term(firing, rename)
